@@ -514,7 +514,7 @@ def main(tier, replay_obj=None):
     watch_server_lines()
     for kind in ("threaded", "pool"):
         ex = explore.ParallelExplorer(concurrent_run(kind), bound=1 if tier == "quick" else 2, use_cache=False, deviations=True,
-                                      max_seconds=200 if tier == "quick" else 1500, stop_on_violation=True, task_execs=40, warmup_execs=4)
+                                      max_seconds=200 if tier == "quick" else 900, stop_on_violation=True, task_execs=40, warmup_execs=4)
         ex.explore()
         ex.stats.states = max(ex.stats.states, ex.stats.executions)
         ex.stats.transitions = max(ex.stats.transitions, ex.stats.executions)
@@ -526,7 +526,7 @@ def main(tier, replay_obj=None):
 
     def unlisted(sig):
         return (PID, sig) not in known
-    c17.explore_reuse(res, tier, "C16", unlisted)
+    c17.explore_reuse(res, tier, "C16", unlisted, deep=False)
     for kind in ("threaded", "pool"):
         for auth in ((False,) if tier == "quick" else (False, True)):
             for name in SCHED_SCRIPTS if tier == "thorough" else SCHED_SCRIPTS[:3]:
